@@ -238,7 +238,7 @@ def run(tier, seed):
                if hits[kind].get(fault, 0) == 0]
     if vacuous and not c.violations:
         # (a signer that never signs exercises no publication fault: the contract's progress clause reports that first)
-        raise vlib.ToolError("vacuity -- " + "; ".join(vacuous))
+        c.defer("vacuity -- " + "; ".join(vacuous))
     c.cov["evaluations"] = total_events
     c.cov["distinct_nontrivial"] = len(distinct)
     c.cov["rule"] = ("one observation per external stimulus of the real signer; distinct = distinct (action, state label, "
